@@ -216,3 +216,60 @@ def run(ck, prog):
     _run_pre_negcast(ck, prog)
     from sa import negcast
     negcast.run_rule(ck, prog, set(DIMENSION_FILES))
+
+
+# ------------------------------------------------------------------ generic: `while counter < bound` loops advance their counter
+_run_pre_progress = run
+
+
+def run(ck, prog):
+    _run_pre_progress(ck, prog)
+    from sa import progress
+    progress.run_rule(ck, prog, set(DIMENSION_FILES))
+
+
+# ------------------------------------------------------------------ elastic net: the augmented target is centred by the mean of the n targets
+_run_pre_encentre = run
+
+
+def elastic_net_centres_targets(ck, prog):
+    """Elastic net is solved as a lasso on the augmented system [gamma X; sqrt(l2) gamma I], [y; 0]. The optimizer centres the
+    vector it is handed by that vector's own mean; handed the uncentred, zero-padded [y; 0_p] it subtracts sum(y)/(n+p)
+    instead of mean(y): the fit changes when a constant is added to every target and l1_ratio = 1 no longer reproduces
+    the lasso. Necessary condition: the n target entries stored into the augmented vector are differences y_i - mean(y)
+    (then the padded vector has mean zero and the optimizer's centring is the identity)."""
+    from sa.prov import Resolver, render, subterms
+    rule, inst = "E2f-centred", "ElasticNet::augment_x_and_y stores centred targets into the padded vector"
+    bs = prog.find(r"^linear::elastic_net::ElasticNet::<T, M>::augment_x_and_y$")
+    if len(bs) != 1:
+        ck.note(f"{inst}: augment_x_and_y not found ({len(bs)}): augmentation done differently, no instance")
+        return
+    b = bs[0]
+    res = Resolver(b)
+    n = 0
+    for bb, t in b.calls():
+        f = t.get("f")
+        if not (f and f["path"].endswith("BaseVector::set") and len(t["args"]) == 3):
+            continue
+        v = res.operand(t["args"][2])
+        reads_y = any(s[0] == "call" and s[1].endswith("BaseVector::get") and s[2] and s[2][0][0] == "arg" and s[2][0][1] == 2 for s in subterms(v))
+        if not reads_y:
+            continue
+        n += 1
+        centred = v[0] == "call" and v[1].endswith("Sub::sub") and any(
+            s[0] == "call" and s[1].endswith(("::mean",)) and s[2] and s[2][0][0] == "arg" and s[2][0][1] == 2 for s in subterms(v[2][1]))
+        if centred:
+            ck.ok(rule, inst, b.path, b.where(bb), f"stores `{render(v)[:70]}`")
+        else:
+            ck.violation(rule, inst, b.path, b.where(bb), ordinal=n, expected="y_i - mean(y) for the n target entries (the p padding entries stay 0)",
+                         found=f"stores `{render(v)[:70]}`: the optimizer then centres the padded vector by sum(y)/(n+p), not by mean(y)")
+    if n == 0:
+        ck.note(f"{inst}: no element-wise copy of y into the augmented vector: no instance")
+
+
+def run(ck, prog):
+    _run_pre_encentre(ck, prog)
+    elastic_net_centres_targets(ck, prog)
+
+
+EXPLANATION += (' Elastic net: the n targets stored into the padded vector are y_i - mean(y) (found and fixed). Termination: the exit test of every counter loop compares a counter that advances (found and fixed: the interior-point line search advanced its bound instead).')
